@@ -38,6 +38,10 @@ type SchedFaults struct {
 	// submission of a result (the node's Send fails); the operator submits the
 	// file again later if the operation is still offered
 	BoardDownAtSubmit bool
+	// PartialPost: now and then the board goes away in the middle of a submission:
+	// the first messages of the result are on the board, the node reports an
+	// error, the operation stays offered and the operator submits the file again
+	PartialPost bool
 }
 
 // Loop is the step-atomic scheduler loop.
@@ -434,12 +438,16 @@ func (o *Operator) Handle(w *World, op *types.Operation) *APIResult {
 	if o.L.Faults.BoardDownAtSubmit && w.Tape.Bool(1, 6, "boardDownAtSubmit?") {
 		n.Handle.SendErrOnce = true
 	}
+	if o.L.Faults.PartialPost && !n.Handle.SendErrOnce && w.Tape.Bool(1, 5, "partialPost?") {
+		n.Handle.SendPartialOnce = 1 + w.Tape.Choose(2, "postedBeforeOutage")
+	}
 	if o.Submit != nil {
 		rep = o.Submit(op, body)
 	} else {
 		rep = w.CallAPI(n, "submit", "POST", "/handleProcessedOperationJSON", body)
 	}
 	n.Handle.SendErrOnce = false
+	n.Handle.SendPartialOnce = 0
 	if !rep.OK() {
 		w.Log.Add("operator[%d] submit rejected: %.120s", o.Idx, rep.ErrMsg)
 	}
@@ -471,6 +479,15 @@ func (w *World) AirProcess(a *AirNode, opJSON []byte) ([]byte, error) {
 
 // ---- proposals --------------------------------------------------------------
 
+// dkgKeyOf: the key-generation key the proposal lists for member i (its own
+// machine's, unless a scenario lets the proposer list something else).
+func (w *World) dkgKeyOf(i int) []byte {
+	if w.DkgKeyOf != nil {
+		return w.DkgKeyOf(i)
+	}
+	return w.Airs[i].PubKeyBytes()
+}
+
 // StartDKGPayload builds the opening proposal exactly as dc4bc_cli start_dkg does.
 func (w *World) StartDKGPayload(threshold int, members []int) []byte {
 	var parts []*requests.SignatureProposalParticipantsEntry
@@ -478,7 +495,7 @@ func (w *World) StartDKGPayload(threshold int, members []int) []byte {
 		parts = append(parts, &requests.SignatureProposalParticipantsEntry{
 			Username:  w.Nodes[i].Name,
 			PubKey:    w.Nodes[i].Pub,
-			DkgPubKey: w.Airs[i].PubKeyBytes(),
+			DkgPubKey: w.dkgKeyOf(i),
 		})
 	}
 	b, err := json.Marshal(requests.SignatureProposalParticipantsListRequest{
